@@ -15,9 +15,10 @@ type Weights struct {
 var defaultWeights = Weights{Deliver: 55, Tick: 10, Campaign: 3, Propose: 10, Conf: 2, Drop: 5, Dup: 3, Partition: 1, Heal: 2, Crash: 2, Restart: 5, Compact: 2}
 
 type Profile struct {
-	Name string
-	Opt  Options
-	W    Weights
+	Name      string
+	Opt       Options
+	W         Weights
+	JointBias bool // prefer explicit joint changes that swap voters for non-voters (disjoint majorities)
 }
 
 // profiles cycles through cluster shapes / options so that one seed covers all of them.
@@ -28,23 +29,26 @@ func profiles(nodes int) []Profile {
 	faulty := w
 	faulty.Crash, faulty.Restart, faulty.Partition, faulty.Drop = 5, 8, 3, 10
 	three := []uint64{1, 2, 3}
+	jointw := w
+	jointw.Conf, jointw.Campaign, jointw.Crash, jointw.Restart, jointw.Compact = 5, 6, 1, 4, 1
 	specw := faulty
 	specw.Conf, specw.Compact, specw.Partition, specw.Drop = 0, 0, 0, 14
 	if nodes == -1 { // profiles inside the scope of EtcdRaft.tla (trace validation, B2)
 		return []Profile{
-			{"n3-spec", Options{N: 3, Voters: three}, specw},
-			{"n3-spec-one", Options{N: 3, Voters: three, MaxEnts: 1}, specw},
+			{Name: "n3-spec", Opt: Options{N: 3, Voters: three}, W: specw},
+			{Name: "n3-spec-one", Opt: Options{N: 3, Voters: three, MaxEnts: 1}, W: specw},
 		}
 	}
 	ps := []Profile{
-		{"n3", Options{N: 3, Voters: three}, noconf},
-		{"n3-one", Options{N: 3, Voters: three, MaxEnts: 1}, faulty},
-		{"n3-faulty", Options{N: 3, Voters: three}, faulty},
-		{"n3-prevote-cq", Options{N: 3, Voters: three, PreVote: true, CheckQuorum: true}, noconf},
-		{"n5-conf", Options{N: 5, Voters: three}, w},
-		{"n5-conf-one", Options{N: 5, Voters: three, MaxEnts: 1, PreVote: true}, w},
-		{"n5", Options{N: 5, Voters: []uint64{1, 2, 3, 4, 5}, MaxEnts: 1}, faulty},
-		{"n4-learner", Options{N: 4, Voters: three, Learners: []uint64{4}, CheckQuorum: true}, w},
+		{Name: "n3", Opt: Options{N: 3, Voters: three}, W: noconf},
+		{Name: "n3-one", Opt: Options{N: 3, Voters: three, MaxEnts: 1}, W: faulty},
+		{Name: "n3-faulty", Opt: Options{N: 3, Voters: three}, W: faulty},
+		{Name: "n3-prevote-cq", Opt: Options{N: 3, Voters: three, PreVote: true, CheckQuorum: true}, W: noconf},
+		{Name: "n5-conf", Opt: Options{N: 5, Voters: three}, W: w},
+		{Name: "n5-conf-one", Opt: Options{N: 5, Voters: three, MaxEnts: 1, PreVote: true}, W: w},
+		{Name: "n5", Opt: Options{N: 5, Voters: []uint64{1, 2, 3, 4, 5}, MaxEnts: 1}, W: faulty},
+		{Name: "n4-learner", Opt: Options{N: 4, Voters: three, Learners: []uint64{4}, CheckQuorum: true}, W: w},
+		{Name: "n5-joint", Opt: Options{N: 5, Voters: three}, W: jointw, JointBias: true},
 	}
 	if nodes > 0 {
 		var r []Profile
@@ -99,12 +103,33 @@ func pick(r *rand.Rand, w []int) int {
 }
 
 // genConf builds a random, applicable configuration change from the leader's current configuration.
-func genConf(r *rand.Rand, n *Node, total int) *CCD {
+func genConf(r *rand.Rand, n *Node, total int, jointBias bool) *CCD {
 	st := n.rn.Status()
 	joint := len(st.Config.Voters[1]) > 0
 	if joint {
-		if r.Intn(4) > 0 {
+		if r.Intn(4) > 0 && !(jointBias && r.Intn(3) > 0) {
 			return &CCD{V2: true, Ops: [][]int{}} // leave joint
+		}
+		if jointBias {
+			return nil // stay joint for a while
+		}
+	}
+	if jointBias && r.Intn(4) > 0 {
+		// swap two voters for two non-voters with an explicit joint transition
+		var in, out []int
+		for id := 1; id <= total; id++ {
+			if _, ok := st.Config.Voters[0][uint64(id)]; ok {
+				in = append(in, id)
+			} else {
+				out = append(out, id)
+			}
+		}
+		if len(in) >= 3 && len(out) >= 2 {
+			r.Shuffle(len(in), func(i, j int) { in[i], in[j] = in[j], in[i] })
+			r.Shuffle(len(out), func(i, j int) { out[i], out[j] = out[j], out[i] })
+			return &CCD{V2: true, Trans: int(pb.ConfChangeTransitionJointExplicit), Ops: [][]int{
+				{int(pb.ConfChangeRemoveNode), in[0]}, {int(pb.ConfChangeRemoveNode), in[1]},
+				{int(pb.ConfChangeAddNode), out[0]}, {int(pb.ConfChangeAddNode), out[1]}}}
 		}
 	}
 	voters := map[int]bool{}
@@ -220,7 +245,7 @@ func (c *Cluster) RandomRun(r *rand.Rand, p Profile, events int, payload *int) {
 			c.Do(Event{Ev: "propose", Node: int(ld[r.Intn(len(ld))].id), P: *payload})
 		case 4:
 			n := ld[r.Intn(len(ld))]
-			if cc := genConf(r, n, len(c.nodes)); cc != nil {
+			if cc := genConf(r, n, len(c.nodes), p.JointBias); cc != nil {
 				*payload++
 				c.Do(Event{Ev: "confchange", Node: int(n.id), P: *payload, CC: cc})
 			}
